@@ -114,6 +114,7 @@ pub fn run(opts: &Opts, which: &'static str) -> i32 {
     rep.require("ack_writes", 1000);
     rep.require("walks_reaching_the_limit", 100);
     if which == "C13" {
+        super::c13_stream::run_part(opts, &rep);
         rep.require("cancellations", 200);
         rep.require("backpressure_on", 100);
     }
